@@ -75,6 +75,19 @@ func run(w *ev.W) {
 			}
 		}
 	}
+	// deeply nested values (a decoder or Skip with a nesting limit below what the
+	// encoder writes does not round-trip them): list in list, struct chain held in
+	// a list, map in map, struct in struct
+	for _, d := range []int{63, 64, 65, 66, 100, 300} {
+		for _, v := range deepValues(d) {
+			if w.Own() {
+				levelCount[1]++
+				w.Count("deeply_nested_values", 1)
+				one(w, v)
+				w.Done()
+			}
+		}
+	}
 	tbin.Enumerate(depth, big, func(level int, v tbin.Value) {
 		if !w.Own() {
 			return
@@ -93,6 +106,22 @@ func run(w *ev.W) {
 	for l, c := range levelCount {
 		w.Count(fmt.Sprintf("values_depth_%d", l), c)
 	}
+}
+
+func deepValues(d int) []tbin.Value {
+	leaf := tbin.Value{T: tbin.I8, I: 7}
+	l, m, st, sl := leaf, leaf, leaf, leaf
+	for i := 0; i < d; i++ {
+		l = tbin.Value{T: tbin.List, VT: l.T, Items: []tbin.Value{l}}
+		m = tbin.Value{T: tbin.Map, KT: tbin.I8, VT: m.T, Items: []tbin.Value{{T: tbin.I8, I: int64(i & 1)}, m}}
+		st = tbin.Value{T: tbin.Struct, Fields: []tbin.Field{{ID: 1, V: st}}}
+		if i&1 == 0 {
+			sl = tbin.Value{T: tbin.Struct, Fields: []tbin.Field{{ID: 2, V: sl}}}
+		} else {
+			sl = tbin.Value{T: tbin.Set, VT: sl.T, Items: []tbin.Value{sl}}
+		}
+	}
+	return []tbin.Value{l, m, st, sl, {T: tbin.List, VT: tbin.Struct, Items: []tbin.Value{st}}}
 }
 
 // One checks a single value (also used by replay): with the []byte flavour of the
@@ -177,6 +206,33 @@ func oneFlavour(w0 *ev.W, v tbin.Value, flavour string) {
 			w.Outcome("decode-ok:" + v.T.String())
 		}
 	}
+	// 3a. a decoded value is still usable after it has been encoded: encode it
+	// twice and read it once more (an encoder that releases the lazy collections
+	// it walks leaves the caller with a dead value)
+	func() {
+		defer func() {
+			if r := recover(); r != nil {
+				w.Violation("decoded-value-reuse-panic:"+v.T.String(), fmt.Sprintf("Decode(%s) then Encode twice then read: panic %v", key, r), rep)
+			}
+		}()
+		dv, err := binary.Default.Decode(bytes.NewReader(ref), wire.Type(v.T))
+		if err != nil {
+			return
+		}
+		for round := 1; round <= 2; round++ {
+			var b bytes.Buffer
+			if err := binary.Default.Encode(dv, &b); err != nil {
+				w.Violation("reencode-error:"+v.T.String(), fmt.Sprintf("Encode #%d of Decode(%s) failed: %v", round, key, err), rep)
+				return
+			} else if !bytes.Equal(b.Bytes(), ref) {
+				w.Violation("reencode-bytes:"+v.T.String(), fmt.Sprintf("Encode #%d of Decode(%s) = %s, spec says %s", round, key, short(b.Bytes()), short(ref)), rep)
+				return
+			}
+		}
+		if got, ferr := wirex.FromWire(dv); ferr != nil || got.Key() != key {
+			w.Violation("decoded-value-after-encode:"+v.T.String(), fmt.Sprintf("Decode(%s), after two Encodes, reads as %s err=%v", key, got.Key(), ferr), rep)
+		}
+	}()
 	// 3b. ReadValue offset
 	rd := binary.NewReader(bytes.NewReader(ref))
 	if rvv, off, err := rd.ReadValue(wire.Type(v.T), 0); err == nil {
